@@ -98,7 +98,7 @@ HARNESSES = [
     H('U-ENC-D', 'encoding', 'enc_detect_matches_yaml_spec', 'complete', ['C07', 'C02', 'C09'], bounds='every prefix of length 0..=8',
       fns=['yaml::encoding::Encoding::detect'], timeout=300, min_covers=5),
     H('U-ENC-D', 'encoding', 'detect_function_contract', 'contract', ['C07'], bounds='every prefix of length 0..=6; Kani function contract (proof_for_contract)',
-      fns=['yaml::encoding::Encoding::detect'], timeout=900),
+      fns=['yaml::encoding::Encoding::detect'], timeout=900, allow_unreachable_asserts=True),  # its obligation is the inserted ensures clause, not an assert! in the harness file
     H('U-YML', 'yaml', 'yaml_slice_fast_path_modular', 'contract', ['C07', 'C02'], bounds='every slice of length 0..=4; Encoding::detect replaced by its verified contract (stub_verified)',
       fns=['yaml::transcode'], timeout=900,
       assumes=['serde_yaml::Deserializer::from_str precondition-contract', 'transcode_reader stubbed']),
